@@ -45,7 +45,7 @@ def main():
                 if r['details']: print('      details:', str(r['details'])[:300])
                 prop.check_job(w, r)
             prop.check_op(w, op, recs)
-        prop.final(w, rng)
+        w.final_sink = []; prop.final(w, rng)
     except Violation as v:
         print('VIOLATION', json.dumps(v.as_dict(), indent=1)[:3000])
     print('REFS', json.dumps(w.refs(), indent=0))
